@@ -20,7 +20,7 @@ fn main() {
         std::process::exit(2);
     }
     // panics inside code under test are data, not noise
-    std::panic::set_hook(Box::new(|_| {}));
+    if std::env::var("VH_PANIC").is_err() { std::panic::set_hook(Box::new(|_| {})); }
     let rest = &args[2..];
     let code = match args[1].as_str() {
         "engine" => engine::cmd_script(rest),
